@@ -125,8 +125,9 @@ def check(cx):
                 probs.append('segments are not produced by mapping over the ends')
             else:
                 s = seq.src
-                while isinstance(s, Stream) and s.kind == 'map':
-                    s = s.parts[0]
+                while isinstance(s, Stream) and (s.kind == 'map' or (s.kind == 'zip' and any(x.kind == 'repeatw' for x in s.parts))):
+                    # zipping with an endless generator (`repeat_with(|| T::arbitrary(u))`) keeps the ends' length and order
+                    s = s.parts[0] if s.kind == 'map' else [x for x in s.parts if x.kind != 'repeatw'][0]
                 base = None
                 if isinstance(s, Stream) and s.kind == 'src' and isinstance(s.parts[0], SliceRef):
                     sl = s.parts[0]
@@ -159,6 +160,13 @@ def check(cx):
                 continue
             if sx['kind'] in ('unwrap', 'expect') and sx.get('in_sort_cmp') is not None and sx['cond'] == ('not', ('unord', sx['in_sort_cmp'][0], sx['in_sort_cmp'][1])):
                 continue
+            if sx['kind'] == 'explicit-panic' and sx.get('in_sort_cmp') is not None:
+                # `let Some(o) = x.partial_cmp(y) else { unreachable!() }`: the same site as the unwrap, reached exactly when
+                # the two comparator operands are unordered
+                a_, b_ = sx['in_sort_cmp'][0], sx['in_sort_cmp'][1]
+                lits = set(sx['facts']) | {(l[0] if l[1] else ('not', l[0])) for l in sx['guard']}
+                if ('unord', a_, b_) in lits or ('unord', b_, a_) in lits:
+                    continue
             bad.append('%s at line %s: %s' % (sx['kind'], sx['line'], term_str(sx['cond'])[:120]))
         rep.ob('nopanic', inst, not bad, '; '.join(bad) or 'only panic-capable site is the comparator unwrap (discharged above)', fn=inst, file=file, line=line,
                msg='undischarged panic sites in Arbitrary: ' + '; '.join(bad))
